@@ -671,6 +671,13 @@ def oracle(ctx):
 def replay(ctx, case):
     f = case.get("failing_input") or {}
     c = f.get("case") or {}
+    if str(f.get("signature", "")).startswith("refusal-path"):
+        refusal_path(ctx)
+        for x in ctx.failures:
+            print("VIOLATION reproduced: %s — %s" % (x["signature"], x["desc"]))
+        if not ctx.failures:
+            print("not reproduced (second client of a full 1-worker pool read CONNECTFAIL 'no free workers')")
+        return 1 if ctx.failures else 0
     if "schedule" not in c:
         print(json.dumps(case.get("no_longer_checks")))
         print(json.dumps(f))
